@@ -49,7 +49,10 @@ func c20PointMethods(gi *GroupInfo, P, Q kyber.Point, k kyber.Scalar) []roMethod
 		{"scalar.String", func() string { return k.String() }},
 		{"scalar.Clone+Equal", func() string { c := k.Clone(); return fmt.Sprint(c.Equal(k), k.Equal(c)) }},
 		{"scalar.Add-operand", func() string { b, _ := g.Scalar().Add(k, k).MarshalBinary(); return fmt.Sprintf("%x", b) }},
-		{"scalar.Mul-operand", func() string { b, _ := g.Scalar().Mul(k, g.Scalar().One()).MarshalBinary(); return fmt.Sprintf("%x", b) }},
+		{"scalar.Mul-operand", func() string {
+			b, _ := g.Scalar().Mul(k, g.Scalar().One()).MarshalBinary()
+			return fmt.Sprintf("%x", b)
+		}},
 	}
 	if gi.HasEmbed {
 		ms = append(ms, roMethod{"Data", func() string { d, err := P.Data(); return fmt.Sprintf("%x/%v", d, err != nil) }})
